@@ -1539,3 +1539,12 @@ def signature_layout(ctx, mir, stats):
                     "detail": "the sequence number enters the HMAC as to_vec(U32::LE(seq)) (MS-NLMP: little endian)" if ok else "sequence number encoding in %s: %s %s" % (who, le, [e[2] for i, e in other]),
                     "where": g.name, "native": None if ok else SEAL_NATIVE})
     return obs
+
+
+RLE16_NATIVE = _native("verif_replay_rle16_opcode", "src/codec/rle.rs", """
+        // every first byte: unknown order codes must be an error, not a panic
+        for b in 0u16..256 {
+            let mut out = [0u16; 8];
+            let input = [b as u8, 0, 0, 0, 0];
+            let _ = rle_16_decompress(&input, 2, 2, &mut out);
+        }""")
